@@ -39,6 +39,14 @@ PAIR_SCENES = [
     "AirborneTEMReceivers", "AirborneTEMTransmitters", "LargeLoopGroundTEMReceivers", "TipperReceivers", "PotentialElectrode",
     "CurrentElectrode", "MTReceivers", "PropertyGroup",
 ]
+DEDUP_TARGETS = ("DrillholeGroup",)
+# quick tier: second ops of a pair = every helper that mutates + one representative of every write path
+QUICK_SECOND = {
+    ("self", "set", "name", 0), ("self", "set", "vertices", 0), ("self", "call", "add_data", 0), ("self", "call", "remove_children", 0),
+    ("self", "call", "copy", 0), ("self", "call", "add_data_to_group", 0), ("type", "set", "name", 0), ("pg", "call", "remove_properties", 0),
+    ("ws", "call", "remove_entity", 0), ("ws", "call", "save_entity", 0), ("ws", "call", "create_entity", 0), ("ws", "call", "close", 0),
+    ("ws", "call", "update_attribute", 0), ("ws", "call", "copy_to_parent", 0),
+}
 # never first in a pair: it declares the entity absent from the file (bookkeeping flag of the library)
 NOT_FIRST = {("set", "on_file")}
 
@@ -64,6 +72,10 @@ def op_key(op):
     return (op["owner"], op["m"], op["k"], op.get("v", 0), op["storage"], "type" if op["t"].endswith("type") else "")
 
 
+def _family(clause):
+    return "bytes-unchanged" if clause == "helper-leaves-source-unchanged" else clause
+
+
 def _strip(op):
     return {k: op[k] for k in ("t", "k", "m", "v", "owner", "cls", "storage", "role")}
 
@@ -84,6 +96,14 @@ def enumerate_cases(ctx, described):
         if name not in by_scene:
             continue
         ops = by_scene[name]["ops"] + helpers
+        if name in DEDUP_TARGETS:  # many targets share one write path: one representative per member
+            kept, seen_m = [], set()
+            for o in ops:
+                mk = (o["m"], o["k"], o.get("v", 0), o["storage"] != "plain", o["t"].endswith("type"))
+                if mk not in seen_m:
+                    seen_m.add(mk)
+                    kept.append(o)
+            ops = kept
         fresh = {op_key(o) for o in ops} - paired
         for a in ops:
             if (a["k"], a["m"]) in NOT_FIRST:
@@ -93,7 +113,7 @@ def enumerate_cases(ctx, described):
                     continue
                 if op_key(a) not in fresh and op_key(b) not in fresh:
                     continue
-                if ctx.quick and not (a["role"] == "getter" or a["k"] == "helper" or b["k"] == "helper"):
+                if ctx.quick and not (b["k"] == "helper" or (b["t"], b["k"], b["m"], b.get("v", 0)) in QUICK_SECOND):
                     continue
                 pairs.append({"scene": name, "ops": [_strip(a), _strip(b)]})
         paired |= fresh
@@ -124,8 +144,19 @@ def run(ctx):  # noqa: C901
     states, transitions, judged = set(), 0, 0
     wrote_and_refused, twin_runs, entry_points = 0, 0, set()
     refusing, silent_ok = set(), set()
+    # a clause already broken by one member of a pair on its own explains the pair: not reported twice
+    single_viol: dict = {}
+    for case, res in zip(singles, res1):
+        for v in res["viol"]:
+            single_viol.setdefault(op_key(case["ops"][0]), set()).add(_family(v[0]))
+    explained = 0
     for case, res in list(zip(singles, res1)) + list(zip(pairs, res2)):
-        ctx.add_violations(case, [tuple(v) for v in res["viol"]])
+        vl = [tuple(v) for v in res["viol"]]
+        if len(case["ops"]) > 1:
+            own = set().union(*(single_viol.get(op_key(o), set()) for o in case["ops"]))
+            explained += sum(1 for v in vl if _family(v[0]) in own)
+            vl = [v for v in vl if _family(v[0]) not in own]
+        ctx.add_violations(case, vl)
         states.add(res["state"])
         n = len(res["ro"])
         transitions += n
@@ -169,6 +200,7 @@ def run(ctx):  # noqa: C901
         helpers=len(lib.HELPERS),
         distinct_outcomes=len(ctx.outcomes),
         determinism_replays=ndet,
+        pair_violations_explained_by_a_single_op=explained,
         exhaustive=not only,
         alphabet="get / set / call of every public member of Workspace, entities, entity types, property groups, colour and value maps "
         "(runtime classes, incl. concatenated storage) + helpers " + ", ".join(lib.HELPERS),
